@@ -9,12 +9,20 @@ package main
 //   spawn T set K V          Set in a goroutine; parks at gw.set.summoned (instance handed out, no vigil yet),
 //                            then at gw.set.vigil (vigil held, nothing written yet)
 //   spawn T del K            Delete in a goroutine; parks at destroy.draining when it removed the last record
+//   spawn T close            Close() on the mapped instance in a goroutine; parks at swamp.closed (flushed, routines
+//                            cancelled, close callback — which removes the map entry — not yet called)
+//   spawnw T set K V         like spawn, but the request may have to wait for a closing instance → … | T waiting
+//   poll T                   where a waiting / parked T is now                      → T@<point> | T waiting
 //   go T                     release T to its next park point / completion          → T@<point> | T done <status>
 //   tick arm                 wait until this swamp's close listener has read lastInteractionTime with an
 //                            "idle long enough" outcome and park it there            → tick parked | tick timeout
 //   tick go                  release the listener; report whether it closed the swamp → tick closed | tick noclose
 //   close                    Close() on the mapped instance (what idle eviction / graceful stop do when nothing is in flight)
 //   reopen                   what a client finds when it asks again (GetAll, re-summons) → keys=[k:v,…]
+// case N stop d      graceful stop on a server of its own: set K V | stop | reopen
+//   stop                     hydra.GracefulStop(); right after it has returned: the number of swamps still mapped, and a
+//                            copy of the data directory (what a process exit at that instant leaves) → stopped open=<n>
+//   reopen                   a fresh server on that copy                             → keys=[…] (keys=? when open>0)
 
 import (
 	"bufio"
@@ -22,6 +30,7 @@ import (
 	"fmt"
 	"math/rand"
 	"os"
+	"path/filepath"
 	"sort"
 	"strconv"
 	"strings"
@@ -30,6 +39,7 @@ import (
 	"time"
 
 	"github.com/hydraide/hydraide/app/core/settings"
+	"github.com/hydraide/hydraide/app/server/gateway"
 	"github.com/hydraide/hydraide/app/name"
 	"github.com/hydraide/hydraide/app/verifhook"
 	hydrapb "github.com/hydraide/hydraide/sdk/go/hydraidego/v3/hydraidepbgo"
@@ -56,6 +66,9 @@ func c16Gen(rng *rand.Rand, tier string, w *bufio.Writer) {
 	c++
 	fmt.Fprintf(w, "case %d life i\nset a x\ntick arm\ntick go\nspawn A set b y\ngo A\ngo A\nclose\nreopen\n", c)
 	c++
+	// a request summons while a closing instance is flushed but still mapped: it has to wait for the map entry to go
+	fmt.Fprintf(w, "case %d life d\nset a x\nspawn C close\nspawnw A set b y\ngo C\npoll A\ngo A\ngo A\nreopen\nclose\nreopen\n", c)
+	c++
 	// sequential: delete, re-create, delete on a key that is in the file
 	fmt.Fprintf(w, "case %d life d\nset c x\nset a x\nclose\ndel c\nset c y\ndel c\nclose\nreopen\n", c)
 	c++
@@ -78,6 +91,45 @@ func c16Gen(rng *rand.Rand, tier string, w *bufio.Writer) {
 			}
 		}
 		fmt.Fprintln(w, "close\nreopen")
+	}
+	// random histories around one request that is parked between its steps (summoned / vigil held); no delete while
+	// it is parked (a delete of the last record would wait for its vigil)
+	conc := 12
+	if tier == "thorough" {
+		conc = 120
+	}
+	for i := 0; i < conc; i++ {
+		fmt.Fprintf(w, "case %d life d\nset a x\n", c)
+		c++
+		left := 0
+		n := 3 + rng.Intn(6)
+		for j := 0; j < n; j++ {
+			switch r := rng.Intn(10); {
+			case r < 3 && left == 0 && j < n-2:
+				fmt.Fprintf(w, "spawn A set %s %s\n", keys[1+rng.Intn(2)], vals[rng.Intn(2)])
+				left = 2
+			case r < 6 && left > 0:
+				fmt.Fprintln(w, "go A")
+				left--
+			case r < 7 && left == 0:
+				fmt.Fprintf(w, "del %s\n", keys[rng.Intn(3)])
+			case r < 8:
+				fmt.Fprintf(w, "set %s %s\n", keys[rng.Intn(3)], vals[rng.Intn(2)])
+			case r < 9:
+				fmt.Fprintln(w, "close")
+			default:
+				fmt.Fprintln(w, "reopen")
+			}
+		}
+		for ; left > 0; left-- {
+			fmt.Fprintln(w, "go A")
+		}
+		fmt.Fprintln(w, "close\nreopen")
+	}
+	// graceful stop
+	for i := 0; i < 2; i++ {
+		fmt.Fprintf(w, "case %d stop d\nset a x\nset b y\nstop\nreopen\n", c)
+		c++
 	}
 }
 
@@ -108,6 +160,17 @@ type c16State struct {
 	tickEv   chan string
 	dead     bool
 	leaked   bool
+	stopRig  *Rig   // mode stop: a server of its own
+	stopCopy string // copy of its data directory taken when GracefulStop returned
+	stopOpen int
+}
+
+// gw is the gateway the current case talks to
+func (st *c16State) gw() *gateway.Gateway {
+	if st.stopRig != nil {
+		return st.stopRig.GW
+	}
+	return st.rig.GW
 }
 
 func (st *c16State) get(n string) *c16Thread {
@@ -131,7 +194,7 @@ func c16Status(c hydrapb.Status_Code) string {
 }
 
 func (st *c16State) doSet(k, v string) string {
-	resp, err := st.rig.GW.Set(context.Background(), &hydrapb.SetRequest{Swamps: []*hydrapb.SwampRequest{{
+	resp, err := st.gw().Set(context.Background(), &hydrapb.SetRequest{Swamps: []*hydrapb.SwampRequest{{
 		IslandID: 1, SwampName: st.swamp, CreateIfNotExist: true, Overwrite: true,
 		KeyValues: []*hydrapb.KeyValuePair{{Key: k, StringVal: &v}}}}})
 	if err != nil || resp == nil || len(resp.GetSwamps()) != 1 || len(resp.GetSwamps()[0].GetKeysAndStatuses()) != 1 {
@@ -194,6 +257,31 @@ func (st *c16State) await(t *c16Thread) string {
 		case <-deadline:
 			st.leaked = true
 			return t.name + " stuck"
+		}
+	}
+}
+
+// awaitFor is await for a request that may legitimately be waiting (no leak accounting)
+func (st *c16State) awaitFor(t *c16Thread, d time.Duration) string {
+	deadline := time.After(d)
+	for {
+		select {
+		case ev := <-st.events:
+			if u := st.get(ev.th); u != nil {
+				u.at = ev.name
+				if u == t {
+					return t.name + "@" + ev.name
+				}
+			}
+		case dn := <-st.done:
+			if u := st.get(dn.th); u != nil {
+				u.at, u.result = "done", dn.result
+				if u == t {
+					return t.name + " done " + dn.result
+				}
+			}
+		case <-deadline:
+			return t.name + " waiting"
 		}
 	}
 }
@@ -319,7 +407,32 @@ func c16Run(in *bufio.Scanner, w *bufio.Writer) {
 		}
 		if f[0] == "case" {
 			st.endCase()
+			if st.stopRig != nil {
+				_ = os.RemoveAll(st.stopRig.Root)
+				if st.stopCopy != "" {
+					_ = os.RemoveAll(st.stopCopy)
+				}
+				// close what the long-lived server opened on the copy, then point the process back at its own data
+				if sw, err := st.rig.Zeus.GetHydra().SummonSwamp(context.Background(), 1, name.Load(st.swamp)); err == nil {
+					if ok, _ := st.rig.Zeus.GetHydra().IsExistSwamp(1, name.Load(st.swamp)); ok {
+						sw.Close()
+					}
+				}
+				st.stopRig, st.stopCopy = nil, ""
+				_ = os.Setenv("HYDRAIDE_ROOT_PATH", st.rig.Root)
+				_ = settings.New(3, 2000)
+			}
 			st.dead = len(f) != 4 || (f[3] != "d" && f[3] != "i")
+			if !st.dead && f[2] == "stop" {
+				r2, err := NewRig(3, 2000, 3600, 3600)
+				if err != nil {
+					st.dead = true
+				} else {
+					r2.Settings.RegisterPattern(name.New().Sanctuary("c16d").Realm("*").Swamp("*"), false, 3600,
+						&settings.FileSystemSettings{WriteIntervalSec: 3600, MaxFileSizeByte: 8192, UseChroniclerV2: true})
+					st.stopRig = r2
+				}
+			}
 			if !st.dead {
 				st.swamp = name.New().Sanctuary("c16" + f[3]).Realm("r" + st.runTag).Swamp("c" + f[1]).Get()
 				st.free.Store(false)
@@ -337,7 +450,18 @@ func c16Run(in *bufio.Scanner, w *bufio.Writer) {
 			fmt.Fprintln(w, st.sync(func() string { return st.doSet(f[1], f[2]) }))
 		case f[0] == "del" && len(f) == 2:
 			fmt.Fprintln(w, st.sync(func() string { return st.doDel(f[1]) }))
-		case f[0] == "spawn" && len(f) >= 4 && st.get(f[1]) == nil:
+		case f[0] == "poll" && len(f) == 2:
+			t := st.get(f[1])
+			if t == nil || t.at == "done" {
+				fmt.Fprintln(w, "bad-op")
+				break
+			}
+			if t.at != "" {
+				fmt.Fprintln(w, t.name+"@"+t.at)
+				break
+			}
+			fmt.Fprintln(w, st.awaitFor(t, 1500*time.Millisecond))
+		case (f[0] == "spawn" || f[0] == "spawnw") && len(f) >= 3 && st.get(f[1]) == nil:
 			t := &c16Thread{name: f[1], gate: make(chan struct{}), parks: map[string]bool{}}
 			var run func() string
 			switch {
@@ -347,6 +471,21 @@ func c16Run(in *bufio.Scanner, w *bufio.Writer) {
 			case f[2] == "del" && len(f) == 4:
 				t.parks["destroy.draining"] = true
 				run = func() string { return st.doDel(f[3]) }
+			case f[2] == "close" && len(f) == 3:
+				t.parks["swamp.closed"] = true
+				run = func() string {
+					h := rig.Zeus.GetHydra()
+					nm := name.Load(st.swamp)
+					if ok, err := h.IsExistSwamp(1, nm); err != nil || !ok {
+						return "closed"
+					}
+					sw, err := h.SummonSwamp(context.Background(), 1, nm)
+					if err != nil {
+						return "ERR"
+					}
+					sw.Close()
+					return "closed"
+				}
 			}
 			if run == nil {
 				fmt.Fprintln(w, "bad-op")
@@ -360,7 +499,11 @@ func c16Run(in *bufio.Scanner, w *bufio.Writer) {
 				defer st.threads.Unregister()
 				st.done <- c16Done{th: t.name, result: run()}
 			}()
-			fmt.Fprintln(w, st.await(t))
+			if f[0] == "spawnw" {
+				fmt.Fprintln(w, st.awaitFor(t, 700*time.Millisecond))
+			} else {
+				fmt.Fprintln(w, st.await(t))
+			}
 		case f[0] == "go" && len(f) == 2:
 			t := st.get(f[1])
 			if t == nil || t.at == "done" {
@@ -403,7 +546,7 @@ func c16Run(in *bufio.Scanner, w *bufio.Writer) {
 					if ev == "closed" {
 						res = "tick closed"
 					}
-				case <-time.After(700 * time.Millisecond):
+				case <-time.After(6 * time.Second):
 				}
 			case <-time.After(c16StepTimeout):
 				res = "tick timeout"
@@ -426,6 +569,56 @@ func c16Run(in *bufio.Scanner, w *bufio.Writer) {
 			for len(st.tickEv) > 0 {
 				<-st.tickEv
 			}
+		case f[0] == "stop" && len(f) == 1 && st.stopRig != nil && st.stopCopy == "":
+			h := st.stopRig.Zeus.GetHydra()
+			h.GracefulStop()
+			st.stopOpen = h.CountActiveSwamps()
+			cp, err := os.MkdirTemp("", "hvrig-copy-")
+			if err == nil {
+				err = os.CopyFS(cp, os.DirFS(st.stopRig.Root))
+			}
+			if err != nil {
+				fmt.Fprintln(w, "ERR")
+				break
+			}
+			st.stopCopy = cp
+			if os.Getenv("C16_TRACE") != "" {
+				_ = filepath.WalkDir(st.stopRig.Root, func(p string, d os.DirEntry, err error) error { fmt.Fprintln(os.Stderr, "SRC", p); return nil })
+				_ = filepath.WalkDir(cp, func(p string, d os.DirEntry, err error) error {
+					if fi, e := os.Stat(p); e == nil {
+						fmt.Fprintln(os.Stderr, "CPY", p, fi.Size())
+					}
+					return nil
+				})
+			}
+			fmt.Fprintf(w, "stopped open=%d\n", st.stopOpen)
+		case f[0] == "reopen" && len(f) == 1 && st.stopRig != nil:
+			if st.stopCopy == "" {
+				fmt.Fprintln(w, "bad-op")
+				break
+			}
+			if st.stopOpen > 0 {
+				fmt.Fprintln(w, "keys=?")
+				break
+			}
+			// the long-lived server of this process reads the copy: the data path is process-global (settings.New sets it)
+			_ = os.Setenv("HYDRAIDE_ROOT_PATH", st.stopCopy)
+			_ = settings.New(3, 2000)
+			fmt.Fprintln(w, st.sync(func() string {
+				r, err := st.rig.GW.GetAll(context.Background(), &hydrapb.GetAllRequest{IslandID: 1, SwampName: st.swamp})
+				if os.Getenv("C16_TRACE") != "" {
+					fmt.Fprintln(os.Stderr, "REOPEN", st.swamp, err, r)
+				}
+				if err != nil || r == nil {
+					return "keys=[]"
+				}
+				ks := make([]string, 0, len(r.GetTreasures()))
+				for _, t := range r.GetTreasures() {
+					ks = append(ks, t.GetKey()+":"+t.GetStringVal())
+				}
+				sort.Strings(ks)
+				return "keys=[" + strings.Join(ks, ",") + "]"
+			}))
 		case f[0] == "reopen" && len(f) == 1:
 			fmt.Fprintln(w, st.sync(st.reopen))
 		default:
